@@ -36,7 +36,7 @@ class TranslateError(Exception):
 
 # ---------------------------------------------------------------- lexer / parser of the expression subset
 
-TOK = re.compile(r'\s*(<[^<>]*\bas\b[^<>]*>(?:::\w+)+|\$?\w+(?:::\w+)*|\d+|>=|<=|==|!=|[-+*/()<>{},.])')
+TOK = re.compile(r'\s*(<[^<>]*\bas\b[^<>]*>(?:::\w+)+|(?:::)?[$#]?\w+(?:::\w+)*|\d+|>=|<=|==|!=|[-+*/()<>{},.])')
 
 
 def lex(s):
@@ -120,7 +120,7 @@ class P:
             return e
         if t.isdigit():
             return ('num', int(t))
-        if re.match(r'^(<|\$|\w)', t):
+        if re.match(r'^(<|\$|#|:|\w)', t):
             if self.peek() == '(':
                 self.take('(')
                 args = []
@@ -158,7 +158,7 @@ def to_coq(e, names):
         n = e[1]
         if n in names:
             return names[n]
-        m = re.match(r'^<\s*(\$?\w+)\s+as\s+[^>]*>::(\w+)$', n)
+        m = re.match(r'^<\s*([$#]?\w+)\s+as\s+[^>]*>::(\w+)$', n)
         if m and (m.group(1) + '::' + m.group(2)) in names:
             return names[m.group(1) + '::' + m.group(2)]
         raise TranslateError('unknown name %r' % n)
@@ -201,6 +201,11 @@ def to_py(e, env):
     if k == 'call':
         a = [to_py(x, env) for x in e[2]]
         return env['__fun__'][base_name(e[1])](*a)
+    if k == 'method':
+        if e[1] == 'unwrap_or' and e[2][0] == 'method' and e[2][1] == 'checked_div':
+            d = to_py(e[2][3][0], env)
+            return to_py(e[2][2], env) // d if d else 0
+        raise TranslateError('unknown method')
     if k == 'if':
         a, b = to_py(e[2], env), to_py(e[3], env)
         c = {'>=': a >= b, '<=': a <= b, '<': a < b, '>': a > b, '==': a == b}[e[1]]
@@ -389,6 +394,37 @@ def generate():
     emit('g_fold_min_size_macro_last', ['T_ALIGN', 'T_MIN_SIZE', 'accum'],
          arm(mn.group(1), r'\(\$accum:expr; \$type:ty \$\(,\)\?\) => \{\s*(.*?)\s*\};', 'fold_min_size! terminal arm'),
          names, R + ': fold_min_size!, the last field contributes MIN_SIZE')
+    out.append('')
+
+    # ---- macros/src/items/base.rs: the constants and size() the #[flat] macro emits (quote! bodies)
+    R = 'macros/src/items/base.rs'
+    src = read(R)
+
+    def quoted(pattern, what):
+        ms = re.findall(pattern, src, re.S)
+        if len(ms) != 1:
+            raise TranslateError('%s: %s found %d times' % (R, what, len(ms)))
+        return re.sub(r'\s+', ' ', ms[0]).strip()
+    emit('g_struct_MIN_SIZE', ['contents', 'Self_ALIGN'],
+         quoted(r'Data::Struct\(struct_data\) => \{\s*let contents = min_size_collect_fields\(&struct_data\.fields\);\s*quote! \{\s*(.*?)\s*\}\s*\}', 'MIN_SIZE of a struct'),
+         {'#contents': 'contents', 'Self::ALIGN': 'Self_ALIGN'}, R + ': MIN_SIZE of a struct (contents = fold_min_size!(0; fields))')
+    emit('g_enum_min_fold', ['accum', 'var_min_size'], quoted(r'quote! \{ (::flatty::utils::min\(#accum, #var_min_size\)) \}', 'MIN_SIZE fold of an enum'),
+         {'#accum': 'accum', '#var_min_size': 'var_min_size'}, R + ': MIN_SIZE of an enum: fold over DATA_MIN_SIZES')
+    emit('g_enum_MIN_SIZE', ['DATA_OFFSET', 'contents', 'Self_ALIGN'],
+         quoted(r'quote! \{\s*(::flatty::utils::ceil_mul\(Self::DATA_OFFSET \+ #contents, [^}]*?)\s*\}', 'MIN_SIZE of an enum'),
+         {'Self::DATA_OFFSET': 'DATA_OFFSET', '#contents': 'contents', 'Self::ALIGN': 'Self_ALIGN'}, R + ': MIN_SIZE of an enum')
+    emit('g_macro_size', ['value', 'Self_ALIGN'], quoted(r'use ::flatty::\{traits::\*, utils::ceil_mul\};\s*(ceil_mul\(#value, Self::ALIGN\))', 'generated size()'),
+         {'#value': 'value', 'Self::ALIGN': 'Self_ALIGN'}, R + ': generated size(): rounding of the value')
+    v = quoted(r'quote! \{ (Self::LAST_FIELD_OFFSET \+ self\.#last\.size\(\)) \}', 'size() value of a struct')
+    emit('g_struct_size_value', ['LAST_FIELD_OFFSET', 'last_size'], v.replace('self.#last.size()', 'last_size'),
+         {'Self::LAST_FIELD_OFFSET': 'LAST_FIELD_OFFSET', 'last_size': 'last_size'}, R + ': size() of a struct before rounding')
+    emit('g_enum_DATA_OFFSET', ['tag_SIZE', 'Self_ALIGN'], quoted(r'const DATA_OFFSET: usize = (::flatty::utils::ceil_mul\(.*?\));', 'DATA_OFFSET of an enum'),
+         {'#tag_type::SIZE': 'tag_SIZE', 'Self::ALIGN': 'Self_ALIGN'}, R + ': DATA_OFFSET of an enum')
+    v = quoted(r'let last_ty = [^;]*;\s*quote! \{\s*(::flatty::utils::ceil_mul\(.*?\))\s*\}\s*\} else', 'LAST_FIELD_OFFSET of a struct')
+    if '::flatty::utils::iter::fold_size!(0; #type_list)' not in v:
+        raise TranslateError('%s: LAST_FIELD_OFFSET no longer starts from fold_size!(0; all but the last field)' % R)
+    emit('g_struct_LAST_FIELD_OFFSET', ['fold_size_prefix', 'last_ALIGN'], v.replace('::flatty::utils::iter::fold_size!(0; #type_list)', 'fold_size_prefix'),
+         {'fold_size_prefix': 'fold_size_prefix', '#last_ty::ALIGN': 'last_ALIGN'}, R + ': LAST_FIELD_OFFSET (fold_size_prefix = fold_size!(0; all but the last field))')
     return '\n'.join(out) + '\n', items
 
 
@@ -408,6 +444,104 @@ def write():
     return False, None
 
 
+PY_FUNS = {'max': lambda a, b: a if a >= b else b, 'min': lambda a, b: a if a <= b else b}
+
+
+def py_eval(items, name, args):
+    """evaluates a translated item on concrete numbers (usize as unbounded naturals, truncated subtraction)"""
+    byname = {it[0]: it for it in items}
+    funs = dict(PY_FUNS)
+    for f in ('max', 'min', 'ceil_mul', 'floor_mul'):
+        it = byname.get('g_' + f)
+        if it:
+            funs[f] = (lambda it: lambda a, b: to_py(it[2], {it[1][0]: a, it[1][1]: b, '__fun__': funs}))(it)
+    _, params, ast, names = byname[name]
+    env = {'__fun__': funs}
+    inv = {}
+    for src_name, term in names.items():
+        inv[src_name] = term
+    vals = dict(zip(params, args))
+
+    def val_of(term):
+        # a Gallina term of the names table: a parameter, or an earlier item applied to parameters
+        term = term.strip('()')
+        head = term.split(' ')[0]
+        if head in vals:
+            return vals[head]
+        sub = byname[head]
+        return py_eval(items, head, [vals[p] for p in term.split(' ')[1:]])
+    for src_name, term in names.items():
+        env[src_name] = val_of(term)
+        m = re.match(r'^([$#]?\w+)::(\w+)$', src_name)
+    # names written as <X as Trait>::Y resolve through the X::Y key (see to_coq)
+    class Env(dict):
+        def __missing__(self, k):
+            m = re.match(r'^<\s*([$#]?\w+)\s+as\s+[^>]*>::(\w+)$', k)
+            if m:
+                return self[m.group(1) + '::' + m.group(2)]
+            raise KeyError(k)
+    return to_py(ast, Env(env))
+
+
+def ref_path():
+    return os.path.join(VERIF, 'coq', 'Generated', 'kernel_ref.json')
+
+
+def write_ref():
+    import json
+    _, items = generate()
+    json.dump([[n, p, a, nm] for n, p, a, nm in items], open(ref_path(), 'w'))
+
+
+def compare_with_ref(limit=6):
+    """formulas of the current source that differ from the verified ones (coq/Generated/kernel_ref.json, written on the
+    pinned tree), each with the first point of a small grid on which the two give different numbers"""
+    import itertools
+    import json
+
+    def tup(x):
+        return tuple(tup(y) for y in x) if isinstance(x, (list, tuple)) else x
+    try:
+        ref = [(n, p, tup(a), nm) for n, p, a, nm in json.load(open(ref_path()))]
+        _, cur = generate()
+    except (OSError, ValueError, TranslateError) as e:
+        return ['(no comparison with the verified formulas: %s)' % e]
+    refd = {r[0]: r for r in ref}
+    out = []
+
+    def grid(param):
+        if param.endswith('ALIGN') or param == 'm':
+            return [1, 2, 4, 8, 16]
+        if param.endswith('SIZE'):
+            return [0, 1, 2, 3, 4, 8, 12]
+        return [0, 1, 2, 3, 4, 5, 7, 8, 9, 11, 16, 17]
+    for it in cur:
+        r = refd.get(it[0])
+        if r is None or (r[2] == tup(it[2]) and list(r[1]) == list(it[1])):
+            continue
+        found = None
+        if list(r[1]) == list(it[1]):
+            for args in itertools.product(*[grid(p) for p in it[1]]):
+                try:
+                    a, b = py_eval(cur, it[0], list(args)), py_eval(ref, it[0], list(args))
+                except (KeyError, ZeroDivisionError, TranslateError):
+                    continue
+                if a != b:
+                    found = (args, a, b)
+                    break
+        if found:
+            out.append('%s(%s): the source now gives %d, the verified formula %d' % (
+                it[0], ', '.join('%s=%d' % kv for kv in zip(it[1], found[0])), found[1], found[2]))
+        else:
+            out.append('%s is written differently from the verified formula (no differing point on the grid)' % it[0])
+        if len(out) >= limit:
+            break
+    return out
+
+
 if __name__ == '__main__':
+    if len(sys.argv) > 1 and sys.argv[1] == '--ref':
+        write_ref()
+        sys.exit(0)
     s, items = generate()
     sys.stdout.write(s)
